@@ -76,12 +76,15 @@ def defect(cls, kind, base_arr, mag, k):
         return a
     if cls in ("Twist3", "Twist2"):
         m = 3 if cls == "Twist3" else 2
+        offs = [(i, jx) for i in range(m) for jx in range(m) if i != jx]      # every off-diagonal entry in turn
         if kind == "near":
-            a[0, 1] += mag
+            i, jx = offs[k % len(offs)]
+            a[i, jx] += mag
         elif kind == "diag":
             a[k % m, k % m] = mag
         elif kind == "notskew":
-            a[0, 1] += mag
+            i, jx = offs[k % len(offs)]
+            a[i, jx] += mag
         elif kind == "bottom":
             a[m, k % (m + 1)] = mag
         return a
@@ -137,9 +140,11 @@ def construct_case(j, e, rng):
     variants = []
     far_present = any(k not in ("valid", "near", "nonunit") for k in kinds)
     mags = FAR_MAGS if far_present else (NEAR_MAGS if "near" in kinds else [1e-3])
-    for mag in mags:
+    for mi, mag in enumerate(mags):
         for v in range(3):
-            items = [defect(cls, k, mem[(i + v) % len(mem)], mag, v + i) for i, k in enumerate(kinds)]
+            # the entry hit by a defect moves with the variant AND the magnitude index, so that all entries of the
+            # rotation block / all off-diagonal entries of a twist matrix are covered across the magnitudes
+            items = [defect(cls, k, mem[(i + v) % len(mem)], mag, v + i + 3 * mi) for i, k in enumerate(kinds)]
             variants.append((mag, v, items))
     for mag, v, items in variants:
         arg = items[0] if form == "bare" else (list(items) if form == "list" else tuple(items))
@@ -225,6 +230,53 @@ def object_case(j, e):
         j.count("object_converted")
 
 
+def mutate_case(j, e):
+    """a valid object receives, through its list interface, an object of another class (subclasses included)"""
+    from spatialmath import SO2, SE2, SO3, SE3, UnitQuaternion, Quaternion, Twist2, Twist3, Plucker
+    mk = {"SO2": lambda k: SO2(0.3 + k), "SE2": lambda k: SE2(1 + k, 2, 0.3), "SO3": lambda k: SO3.Rx(0.3 + k),
+          "SE3": lambda k: SE3(1 + k, 2, 3) * SE3.Rx(0.3), "UnitQuaternion": lambda k: UnitQuaternion.Rx(0.3 + k),
+          "Quaternion": lambda k: Quaternion([1 + k, 2, 3, 4]), "Twist2": lambda k: Twist2([1 + k, 2, 0.3]),
+          "Twist3": lambda k: Twist3([1 + k, 2, 3, 0.1, 0.2, 0.3]), "Plucker": lambda k: Plucker([1, 0, 0, 0, k, 1])}
+    shape = {"SO2": (2, 2), "SE2": (3, 3), "SO3": (3, 3), "SE3": (4, 4), "UnitQuaternion": (4,),
+             "Twist2": (3,), "Twist3": (6,)}
+    call = e["call"]
+    cls, other, mut, n = call["cls"], call["other"], call["mutator"], call["len"]
+    x = mk[cls](0)
+    for k in range(1, n):
+        x.append(mk[cls](k))
+    o = mk[other](5)
+    cid = (cls, "mutate", other, mut)
+    feat = "%s;len=%d" % (other, n)
+    site = "%s.%s" % (cls, mut)
+    try:
+        if mut == "append":
+            x.append(o)
+        elif mut == "insert":
+            x.insert(0, o)
+        elif mut == "extend":
+            x.extend(o)
+        else:
+            x[n - 1] = o
+        raised = False
+    except Exception:  # noqa: BLE001
+        raised = True
+    bad = None
+    for a in x.data:
+        if a is None or not isinstance(a, np.ndarray) or a.shape != shape[cls]:
+            bad = "holds-foreign-element"
+        elif cls not in ("Twist2", "Twist3") and residual(cls, a) > 1e-9:
+            bad = "holds-non-member"
+    if raised and len(x) != n:
+        bad = bad or "changed-by-rejected-call"
+    if bad:
+        j.fail("%s|%s|%s|%s" % (PID, site, feat, bad),
+               {"kind": "mutate-with-object", "cls": cls, "other": other, "mutator": mut, "len": n, "raised": raised,
+                "stored_shapes": [list(np.shape(a)) for a in x.data]}, cid)
+    else:
+        j.ok(cid)
+        j.count("mutation_rejected" if raised else "mutation_converted")
+
+
 def predicate_args(pred, kind, rng):
     """list of (argument, magnitude) realising an argument kind for a predicate"""
     cls = {"isR": "SO3", "isrot": "SO3", "isrot2": "SO2", "ishom": "SE3", "ishom2": "SE2",
@@ -235,9 +287,9 @@ def predicate_args(pred, kind, rng):
         mags = NEAR_MAGS if kind == "near" else FAR_MAGS
         if kind == "valid":
             mags = [0.0]
-        for mag in mags:
+        for mi, mag in enumerate(mags):
             for v, m in enumerate(members(cls, rng)[:4]):
-                out.append((defect(cls, kind, m, mag, v), mag))
+                out.append((defect(cls, kind, m, mag, v + 4 * mi), mag))
         if pred == "isR":      # isR also serves 2x2
             for mag in mags:
                 out.append((defect("SO2", kind, members("SO2", rng)[1], mag, 1), mag))
@@ -370,6 +422,8 @@ def run(tier):
             construct_case(j, e, rng)
         elif e["call"]["op"] == "construct-from-object":
             object_case(j, e)
+        elif e["call"]["op"] == "mutate-with-object":
+            mutate_case(j, e)
         else:
             predicate_case(j, e, rng)
     if len(seen) < 2000:
